@@ -550,3 +550,29 @@ def absorb(ck, h, pid=None, identity_of=None):
             if ident is not None:
                 obj["identity"] = ident
         ck.violation("fault (%s) while executing %s" % (h.fault["kind"], h.fault["case"][:200]), obj)
+
+
+def hook_neutrality(jobs_path, tag="hn"):
+    """Compile /repo/src twice with g++ -O1 - with and without -D GRAPHITE2_VERIF - link the public-API dumper
+    tools/plain/dump.cpp against each and compare the outputs on the given jobs.  Returns (identical, n_lines)."""
+    outs = []
+    for with_hooks in (True, False):
+        d = os.path.join(BUILD, "plain", "%s-%s-%d" % (tag, "hooks" if with_hooks else "nohooks", os.getpid()))
+        shutil.rmtree(d, ignore_errors=True)
+        os.makedirs(d)
+        flags = "-std=c++14 -O1 -fno-rtti -fno-exceptions -DGRAPHITE2_STATIC -DGRAPHITE2_NTRACING %s -I%s/include -I%s/src" % ("-D" + GUARD if with_hooks else "", REPO, REPO)
+        srcs = lib_sources("call")
+        script = "\n".join("g++ %s -c %s -o %s" % (flags, s_, os.path.join(d, os.path.basename(s_)[:-4] + ".o")) for s_ in srcs)
+        rc, out, _ = sh("xargs -P%d -I{} sh -c '{}'" % NCPU, input=script.encode(), timeout=900)
+        if rc != 0:
+            raise Broken("plain library build failed:\n" + out[-3000:])
+        exe = os.path.join(d, "dump")
+        rc, out, _ = sh("g++ -std=c++14 -O1 -DGRAPHITE2_STATIC -I%s/include -I%s %s %s/*.o -o %s" % (REPO, HARNESS, os.path.join(VERIF, "tools/plain/dump.cpp"), d, exe), timeout=900)
+        if rc != 0:
+            raise Broken("dumper link failed:\n" + out[-3000:])
+        rc, out, _ = sh([exe, jobs_path], timeout=3000)
+        shutil.rmtree(d, ignore_errors=True)
+        if rc != 0:
+            raise Broken("dumper failed rc=%s: %s" % (rc, out[-1000:]))
+        outs.append(out)
+    return outs[0] == outs[1], outs[0].count("\n")
